@@ -250,7 +250,11 @@ func main() {
 					out.Status, out.Error = "unsupported", u.msg+" (near "+e.pos(token.NoPos)+")"
 					return
 				}
-				out.Status, out.Error = "error", fmt.Sprintf("engine panic: %v\n%s", r, debug.Stack())
+				st := string(debug.Stack())
+				if len(st) > 3000 {
+					st = st[:3000]
+				}
+				out.Status, out.Error = "error", fmt.Sprintf("engine panic: %v\n%s", r, st)
 			}
 		}()
 		e.ensureInit(target)
